@@ -84,14 +84,52 @@ def ob_repair_store_unconditional(run, oid):
             o.check(not extra, "Blockstore::add_shred_from_repair|no-condition", "no condition guards the delegation", c.span, {"extra": G.atoms_show(extra)})
 
 
+def ob_peer_selection(run, oid):
+    """whom a repair request is sent to: any other validator can be drawn, addressed by its own entry"""
+    prog = run.program("lib")
+    o = run.ob(oid, "repair peers are drawn from the epoch's whole validator list (validator index == position), never the node itself, and addressed by the drawn validator's own entry",
+               "'as long as some peer keeps answering correctly': the one correct peer must be reachable by the draw. A sampler over a filtered or re-ordered list returns positions that are "
+               "not validator ids: some validator is then never asked (and another one, or the node itself, twice as often)", floor=3)
+    b = prog.body(REP + "::new")
+    if b is None:
+        o.missing("Repair::new")
+    else:
+        cs = [c for c in b.calls() if c.name.endswith("Sampler::new") or "Sampler::new" in c.name]
+        o.check(len(cs) == 1, "Repair::new|sampler|one", "one sampler is constructed", b.span)
+        for c in cs:
+            t = b.operand_term(c.args[0])
+            pv = b.provenance(t)
+            names = set(x.rsplit("::", 1)[-1] for x in pv["calls"])
+            whole = any(x.endswith("EpochInfo::validators") for x in pv["calls"]) and not (names & {"filter", "filter_map", "skip", "take", "retain", "remove", "swap_remove", "sort", "sort_by", "sort_by_key",
+                                                                                         "sort_unstable_by_key", "rev", "dedup", "drain", "split_off", "truncate", "shuffle"}) and not pv["aggs"]
+            o.check(whole, "Repair::new|sampler|whole-validator-list", "the sampler is built over epoch_info.validators() as is (no filter, no re-ordering)", c.span, {"calls": sorted(names)})
+    pb = prog.body(REP + "::pick_random_peer")
+    if pb is None:
+        o.missing("Repair::pick_random_peer")
+        return o
+    for rb in pb.return_blocks():
+        g = [a for a in G.guard_atoms(pb, rb, prog) if a[0] in ("eq", "ne") and len(a[1]) == 2 and (K.mentions_call(a[1][0], "own_id") or K.mentions_call(a[1][1], "own_id"))
+             and ((a[0] == "eq" and a[2] is False) or (a[0] == "ne" and a[2] is True))]
+        o.check(bool(g), "pick_random_peer|not-self", "a peer is returned only when its id differs from own_id()", pb.span, {"guards": K.show_atoms(prog, pb, rb)[:4]})
+    rt = K.peel(pb.local_term(0))
+    ok = isinstance(rt, tuple) and rt and rt[0] == "field" and rt[2] == "repair_responder_address"
+    base_ok = ok and (K.mentions_call(rt[1], "sample_info") or (K.mentions_call(rt[1], "EpochInfo::validator") and K.mentions_call(rt[1], "::sample")) or K.peel(rt[1])[0] == "local")
+    o.check(ok and base_ok, "pick_random_peer|address-of-the-drawn-validator", "the address returned is repair_responder_address of the drawn validator", pb.span, {"value": mir.show(rt)[:100]})
+    return o
+
+
 def check(run, prefix="O14", compose=True):
     P = prefix
     ob_request_identifier(run, P + ".12")
+    ob_peer_selection(run, P + ".16")
     ob_repair_store_unconditional(run, P + ".13")
     # the responder answers from the blockstore's per-block maps: everything beyond the proven last slice is pruned when the last slice becomes
     # known (the range guard of get_shred / get_slice_root / create_double_merkle_proof)
     from . import C13 as _C13
     _C13.ob_last_slice_prune(run, P + ".14")
+    # "no response crashes the repair task": a repaired block is handed to Pool::add_block, which asserts block.slot > parent.slot - backed by the content
+    # gates of the reconstruction (every parent a block names, incl. the one a later slice switches to, lies in an earlier slot)
+    _C13.ob_content_gates(run, P + ".15")
     from . import detectors as _DL
     _DL.ob_loop_exits(run, P + ".11", ['repair::', 'consensus::blockstore'], 'every missing slice / shred has to be requested: a loop that stops early never repairs the rest')
     ob_block_lookup(run, P + ".10")
